@@ -248,6 +248,9 @@ def run(chk: Check, ctx: Any) -> None:
     chk.rule("C01-R3", "strip_last_label: removal only under the 'previous op ends control flow' flag; flag reset at labels targeted by >= 1 jump counted over all routines; "
                        "replacement op keeps the offset and ends control flow")
     chk.rule("C01-R4", "add_loop/add_switch_case are undone by remove_* on every normal exit of the collecting handler")
+    chk.rule("C01-R1", "every condition, switch/case header, assignment, context and plain-operation form compiles (handlers evaluated abstractly on the grammar's parse tree) to "
+                       "the opcode and parameter order the language specification assigns; meaningless forms are rejected; every parser rule has its handler")
+    forms_compiled_rule(chk, ctx, "C01-R1")
     sta_rule(chk, ctx, "C01-R2", thorough)
     strip_last_label_rules(chk, ctx, "C01-R3")
     # R4 (shared with C10-R4)
@@ -273,3 +276,171 @@ def run(chk: Check, ctx: Any) -> None:
                        f"{f.short} can return after {push}() without {pop}(): the finished block stays on the compiler's stack, so a later `continue`/`break_loop`/`break` "
                        "of an enclosing construct is bound to it and jumps to the wrong place", f"{pop} on every normal exit", node=pushes[0])
     chk.floor("C01-R4", "handlers that push a loop/case", n_pairs, 5)
+
+
+# --------------------------------------------------------------------------- R1: compiled forms vs. the language's form table
+
+
+def _expect_token(t: Any) -> str:
+    """What a literal token denotes as a parameter, per the language specification."""
+    ty, text = t.type, t.text
+    if ty == "INTEGER":
+        return str(int(text, 0))
+    if ty in ("IDENTIFIER", "VARIABLE"):
+        return f"const:{text}"
+    if ty == "DECIMAL":
+        neg = text.startswith("-")
+        body = text[1:] if neg else text
+        whole, _, fract = body.partition(".")
+        whole = whole.lstrip("0") or "0"
+        w = "-" + whole if neg else whole
+        if neg and whole == "0":
+            w = "-0"
+        return f"fixed:{w}.{fract if fract != '' else '0'}"
+    if ty == "MULTILINE_STRING_LITERAL":
+        from ..spec.language_forms import multiline_value
+        return "str:" + multiline_value(text)
+    if ty == "STRING_LITERAL":
+        return "str:" + text[1:-1].replace('\\"', '"').replace("\\'", "'").replace("\\n", "\n")
+    return f"?{ty}:{text}"
+
+
+def _expect_param(p: Any) -> str:
+    from ..engine.g4 import Token
+    if isinstance(p, Token):
+        return _expect_token(p)
+    if isinstance(p, tuple) and p and p[0] == "lang":
+        return "lang:" + ",".join(f"{k}={_expect_token(v)[4:]}" for k, v in p[1])
+    if isinstance(p, tuple) and p and p[0] == "pos":
+        from ..spec.language_forms import position_arg
+        x, y = position_arg(p[2].text), position_arg(p[3].text)
+        return f"pos:{_expect_token(p[1])[4:]}:{x[0]}+{x[1]}:{y[0]}+{y[1]}"
+    if isinstance(p, bool):
+        return str(int(p))
+    if isinstance(p, int):
+        return str(p)
+    return repr(p)
+
+
+def forms_compiled_rule(chk: Check, ctx: Any, rule: str) -> None:
+    from ..engine.dispatch import statement_visitor_table
+    from ..engine.sta import TreeCompiler
+    from ..engine.absint import AObj
+    from ..spec import language_forms as LF
+    repo = ctx.repo
+    fold = ctx.fold
+    g = ctx.grammar_exps
+    PERF = "$PERF"
+    disp = statement_visitor_table(repo, fold)
+    chk.floor(rule, "statement visitor dispatch entries", len(disp), 45)
+    # every parser rule the handlers need has a visit method (dispatch exhaustiveness)
+    needs = ["cntrl_stmt", "jump", "call", "ctx_block", "if_block", "elseif_block", "else_block", "if_header", "if_h_negatable", "if_h_op", "if_h_bit", "if_h_scn",
+             "switch_block", "message_switch_block", "single_case_block", "default", "switch_header", "switch_h_scn", "switch_h_random", "switch_h_dungeon_mode",
+             "switch_h_sector", "case_header", "case_h_menu", "case_h_menu2", "case_h_op", "forever_block", "for_block", "while_block", "assignment_regular",
+             "assignment_clear", "assignment_initial", "assignment_reset", "assignment_adv_log", "assignment_dungeon_mode", "assignment_scn", "value_of", "scn_var",
+             "conditional_operator", "assign_operator", "integer_like", "operation", "arglist", "pos_argument", "position_marker", "position_marker_arg", "label",
+             "string", "lang_string", "lang_string_argument", "macro_call"]
+    missing = [r for r in needs if r not in disp or disp[r].handler is None]
+    sv = repo.cls("explorerscript.ssb_converting.compiler.compiler_visitor.statement_visitor.StatementVisitor")
+    chk.decide(rule, "dispatch:exhaustive", not missing, sv.mod, f"parser rules without a compile handler in StatementVisitor: {missing} (the construct compiles to nothing or fails)",
+               f"{len(needs)} rules dispatched")
+    branch_ops = set(fold.const(f"{SPECIAL}:OPS_BRANCH"))
+    tc = TreeCompiler(repo, fold, disp)
+    anchor = sv.mod
+    n_forms = 0
+    samples: list[str] = []
+
+    def run_form(kind: str, start: str, text: str, spec_fn: Any, extract: Any) -> None:
+        nonlocal n_forms
+        n_forms += 1
+        key = f"form:{kind}:{text}"
+        try:
+            tree = g.parse_text(start, text)
+        except AnalysisError as e:
+            tree = None
+        if tree is None:
+            chk.unknown(rule, key, anchor, f"sample `{text}` does not parse as {start} (grammar changed?)")
+            return
+        try:
+            want = spec_fn(tree)
+            want_n = [(op, [_expect_param(p) for p in ps]) for op, ps in want]
+            want_rej = None
+        except LF.Rejected as e:
+            want, want_n, want_rej = None, None, str(e)
+        cc = tc.new_context(PERF)
+        try:
+            hs = tc.build(tree, cc)
+            got = extract(hs, cc)
+            got_rej = None
+        except PyExc as e:
+            got, got_rej = None, f"{e.cls_name}: {e.msg}"
+            if e.cls_name not in ("SsbCompilerError", "ValueError") and want_rej is None:
+                chk.violation(rule, key, anchor, f"`{text}`: the handlers fail with {e.cls_name} ({e.msg}) at {e.where}")
+                return
+        except Unsupported as e:
+            chk.unknown(rule, key, anchor, f"`{text}`: abstract interpretation left the modelled subset: {e}")
+            return
+        if want_rej is not None:
+            chk.decide(rule, key, got_rej is not None, anchor, f"`{text}` is meaningless ({want_rej}) but compiles to {got}", "rejected as specified")
+            return
+        if got_rej is not None:
+            chk.violation(rule, key, anchor, f"`{text}` is valid but the compiler rejects it: {got_rej}")
+            return
+        if len(samples) < 10:
+            samples.append(f"{text} -> {got}")
+        chk.decide(rule, key, got == want_n, anchor,
+                   f"`{text}` compiles to {got}; the language specification assigns {want_n} (opcode and parameters in this order)", f"{want_n}")
+
+    def blueprint(hs: list[Any], cc: Any) -> list[tuple[str, list[str]]]:
+        bp = tc.collect(hs[0])
+        if not isinstance(bp, AObj):
+            raise Unsupported("header did not produce a blueprint")
+        return [(bp.attrs["op_code_name"], [tc.param_repr(p) for p in bp.attrs["params"]])]
+
+    def ops_of(hs: list[Any], cc: Any) -> list[tuple[str, list[str]]]:
+        out = []
+        for h in hs:
+            res = tc.collect(h)
+            for op in (res if isinstance(res, list) else [res]):
+                if not isinstance(op, AObj):
+                    raise Unsupported("collect() result is not an op")
+                if op.cls.name == "SsbLabelJump":
+                    op = op.attrs["_root"]
+                out.append((op.attrs["op_code"].attrs["name"], [tc.param_repr(p) for p in op.attrs["params"]]))
+        return out
+
+    ops_notation = list(LF.COND_NOTATION.values())
+    for n in ops_notation:
+        run_form("if", "if_header", f"$A {n} 0x15", lambda t: [LF.if_header(t, PERF, branch_ops)], blueprint)
+        run_form("if", "if_header", f"$A {n} value($B)", lambda t: [LF.if_header(t, PERF, branch_ops)], blueprint)
+        run_form("if-scn", "if_header", f"scn($A) {n} [3, 4]", lambda t: [LF.if_header(t, PERF, branch_ops)], blueprint)
+        run_form("case", "case_header", f"{n} 7", lambda t: [LF.case_header(t, "Switch")], blueprint)
+        run_form("case", "case_header", f"{n} value($B)", lambda t: [LF.case_header(t, "Switch")], blueprint)
+    for w in ("debug", "edit", "variation"):
+        run_form("if", "if_header", w, lambda t: [LF.if_header(t, PERF, branch_ops)], blueprint)
+        run_form("if", "if_header", f"not {w}", lambda t: [LF.if_header(t, PERF, branch_ops)], blueprint)
+    for src in ("$A[3]", "not $A[3]", f"{PERF}[3]", f"not {PERF}[3]", "BranchSum(1, 2, 3)", "BranchExecuteSub(CORO_X)", "foo(1)"):
+        run_form("if", "if_header", src, lambda t: [LF.if_header(t, PERF, branch_ops)], blueprint)
+    for src in ("$A", "5", "scn($A)[0]", "scn($A)[1]", "scn($A)[2]", "random(5)", "dungeon_mode(DUNGEON_X)", "sector()", "message_Menu(MENU_X)", "ProcessSpecial(1, 2, 3)"):
+        run_form("switch", "switch_header", src, lambda t: [LF.switch_header(t)], lambda hs, cc: ops_of(hs, cc))
+    for src in ("5", "CONST_X", "menu('Yes')", "menu2(3)"):
+        run_form("case", "case_header", src, lambda t: [LF.case_header(t, "Switch")], blueprint)
+    for n in LF.CALC_NOTATION.values():
+        run_form("assign", "simple_stmt", f"$A {n} 5;", lambda t: LF.simple_stmt(t, PERF), ops_of)
+        run_form("assign", "simple_stmt", f"$A {n} value($B);", lambda t: LF.simple_stmt(t, PERF), ops_of)
+    for src in ("$A[3] = 1;", f"{PERF}[3] = 1;", "$A[3] = value($B);", "clear $A;", "init $A;", "reset dungeon_result;", "reset scn($A);", "adventure_log = 5;",
+                "dungeon_mode(3) = DMODE_OPEN;", "$A = scn[3, 4];", "return;", "end;", "hold;",
+                "foo(1, -0x10, 0b11, 1.50, -0.5, 007.250, CONST, $VAR, 'it\\'s', \"dq\", );", "foo<actor 7>(1);", "foo<object OBJ>();", "foo<performer 2>(3);", "bar();"):
+        run_form("stmt", "simple_stmt", src, lambda t: LF.simple_stmt(t, PERF), ops_of)
+    for src in ("foo({english='a', german=\"b\"});", "foo(Position<'m', 20, 20.5>);", "foo(Position<'m', 3.0, 0x10>);", "foo(Position<'m', 1.25, 2>);",
+                "foo(\"\"\"\n      First Line\n      Second Line\n        Some indentation\n      Fourth Line\"\"\");",
+                "foo(\'\'\'First Line\n      Second Line\n        Some indentation\n      Fourth Line\n          \'\'\');",
+                "foo(\"\"\"one line\"\"\");", "foo(\"\"\"a\\nb\"\"\");",
+                "foo({english=\"\"\"\n   String C\n   on lines\n  \"\"\"});"):
+        run_form("stmt", "simple_stmt", src, lambda t: LF.simple_stmt(t, PERF), ops_of)
+    for kind in ("actor", "object", "performer"):
+        run_form("with", "stmt", f"with ({kind} 7) {{ foo(1); }}", lambda t, kind=kind: [(LF.CTX_OPS[kind], [t.sub("ctx_block").sub("ctx_header").sub("integer_like").first_token()])]
+                 + LF.simple_stmt(t.sub("ctx_block").sub("simple_stmt"), PERF), ops_of)
+    run_form("with", "stmt", "with (actor 7) { §lbl; }", lambda t: (_ for _ in ()).throw(LF.Rejected("label in with")), ops_of)
+    chk.floor(rule, "syntactic forms compiled abstractly", n_forms, 100)
+    chk.extra["forms_compiled"] = {"forms": n_forms, "samples": samples}
